@@ -97,7 +97,7 @@ def seed_corpus(chk, root):
             gfiles.append((1, b"\n".join(ls)))
     # header corner cases on a valid body: E_max one or a few ulps above E_min (vanishing step), E_min = 0, E_max = E_sum, 2 E_min = E_sum
     import struct
-    for sel, t in list(gfiles)[:6]:
+    for sel, t in list(gfiles)[:9]:
         lines = t.split(b"\n")
         hdr = next((i for i, l in enumerate(lines) if l.startswith(b"Probability") or l.startswith(b"CumulativeProbability")), None)
         if hdr is None or hdr == 0:
@@ -107,8 +107,9 @@ def seed_corpus(chk, root):
             emin, esum = float(toks[1]), float(lines[hdr - 1].split()[0])
         except (ValueError, IndexError):
             continue
-        nxt = struct.unpack("<d", struct.pack("<q", struct.unpack("<q", struct.pack("<d", emin))[0] + 1))[0]
-        for variant in ((emin, nxt), (emin, emin * (1 + 1e-15)), (0.0, float(toks[2])), (emin, esum), (esum / 2, float(toks[2])), (emin, emin)):
+        ulps = lambda x, k: struct.unpack("<d", struct.pack("<q", struct.unpack("<q", struct.pack("<d", x))[0] + k))[0]
+        nxt = ulps(emin, 1)
+        for variant in [(emin, nxt), (emin, emin * (1 + 1e-15)), (0.0, float(toks[2])), (emin, esum), (esum / 2, float(toks[2])), (emin, emin)] + [(emin, ulps(emin, k)) for k in range(2, 13)]:
             ls = list(lines)
             ls[hdr] = b" ".join([toks[0], repr(variant[0]).encode(), repr(variant[1]).encode()] + toks[3:])
             gfiles.append((sel, b"\n".join(ls)))
